@@ -229,6 +229,7 @@ Clear ==
 \* that is where the unchanged code goes wrong (deviation DYN_RESERVE_UNSIZED_STRUCT).
 Reserve(n) ==
     /\ Family = "dyn" /\ Running
+    /\ n <= 65536          \* keeps the capacities of long random histories (2 * cap + 3, repeated) allocatable
     /\ elems' = elems /\ cap' = (IF n > cap THEN n ELSE cap)
     /\ zb' = (zb \/ (IsStruct(kind) /\ ~sized /\ n > cap))
     /\ UNCHANGED <<kind, sized, ohas, oelems, ocap>>
